@@ -70,7 +70,7 @@ def contains_integer_float(lo: int, hi: int, v: float) -> bool:
     want = False
     reach('int_nonfinite')
   else:
-    want = (v == math.floor(v)) and lo <= v <= hi
+    want = (v == int(v)) and lo <= v <= hi   # math.floor would realise v (C function)
     reach('int_float_in' if want else 'int_float_out')
   return finish(got == want, (lo, hi, v))
 
@@ -138,10 +138,8 @@ def contains_wrong_kind(kind: int, lo: int, hi: int, s: str, f: float) -> bool:
   kind = conc(kind, 0, 2)
   if kind == 0:      # a non-numeric string offered to an INTEGER parameter
     for ch in s:
-      if ch in '0123456789+-._eEinfatyINFATY \t\n':
-        return True   # numeric-looking strings are don't-cares
-    if len(s) == 0:
-      pass
+      if not ('o' <= ch <= 'z'):
+        return True   # only strings over o..z: certainly not parseable as a number (numeric strings are don't-cares)
     cfg = pc.ParameterConfig.factory('x', bounds=(lo, hi))
     got = cfg.contains(s)
     reach('str_to_int')
